@@ -1,5 +1,6 @@
 """C28 — hy.repr: quoting / cycle state is restored on every exit of hy-repr."""
 CANON = True
+LENIENT = False  # rules over .hy sources (own s-expression reader); no canonical form there
 
 import re
 
